@@ -83,16 +83,17 @@ def run_row(item):
         doc = document(r["xml"], "none", True, rid)
         if r["short"]:
             doc = doc[:2] if r["xml"] == "none" else doc   # a document shorter than 4 units
+        kw = {} if r.get("incdef", True) else {"includeDefault": False}
         try:
             if r["doc"] == "bytes":
-                res, pos = encutils.detectXMLEncoding(doc), r["pos"]
+                res, pos = encutils.detectXMLEncoding(doc, **kw), r["pos"]
             elif r["doc"] == "text":
-                res, pos = encutils.detectXMLEncoding(doc.decode("latin-1")), r["pos"]
+                res, pos = encutils.detectXMLEncoding(doc.decode("latin-1"), **kw), r["pos"]
             else:
                 f = io.StringIO(doc.decode("latin-1"))
                 f.seek(min(r["pos"], len(doc)))
                 a["pos"] = f.tell()
-                res = encutils.detectXMLEncoding(f)
+                res = encutils.detectXMLEncoding(f, **kw)
                 pos = f.tell()
             o = {"out": "ok", "result": none(res), "pos": pos}
             if r["doc"] != "stream":
